@@ -812,6 +812,92 @@ func init() {
 			c15stats.StateStr(fmt.Sprint("twins", order, js))
 		}, nil
 	}
+	// a populated struct holds no reference to the input buffer, also for fields of the codec's own raw-message types
+	Scenarios["c15.populate-then-overwrite-input"] = func() (choice.Scenario, func() any) {
+		type rawHolder struct {
+			A   *int64          `cbor:"1,keyasint" json:"a"`
+			Raw cbor.RawMessage `cbor:"2,keyasint,omitempty" json:"-"`
+			B   *[]byte         `cbor:"3,keyasint,omitempty" json:"b,omitempty"`
+			S   *string         `cbor:"4,keyasint,omitempty" json:"s,omitempty"`
+			J   json.RawMessage `cbor:"-" json:"j,omitempty"`
+		}
+		return func(c *choice.Ctx) {
+			js := c.Choose("format", 2) == 1
+			mode := c.Choose("overwrite-with", 3)
+			var in []byte
+			if js {
+				in = []byte(`{"a":7,"b":"AQID","s":"text","j":{"k":[1,2,3]}}`)
+			} else {
+				in = mcbor.Encode(mcbor.M(mcbor.U(1), mcbor.U(7), mcbor.U(2), mcbor.M(mcbor.T("k"), mcbor.A(mcbor.U(1), mcbor.U(2))), mcbor.U(3), mcbor.B([]byte{1, 2, 3}), mcbor.U(4), mcbor.T("text")))
+			}
+			buf := append([]byte{}, in...)
+			x := &rawHolder{}
+			var err error
+			if js {
+				err = encoding.PopulateStructFromJSON(buf, x)
+			} else {
+				err = encoding.PopulateStructFromCBOR(c15IndefDM, buf, x)
+			}
+			if err != nil {
+				c.Failf(fmt.Sprintf("C15:populate-error:raw-message-fields:json=%v", js), "%v", err)
+				return
+			}
+			before := dump(x) + fmt.Sprintf("|%x|%s", []byte(x.Raw), []byte(x.J))
+			for i := range buf {
+				switch mode {
+				case 0:
+					buf[i] = 0
+				case 1:
+					buf[i] = 0xff
+				case 2:
+					buf[i] ^= 0xff
+				}
+			}
+			c15stats.StateStr(fmt.Sprint("overwrite", js, mode))
+			c15stats.Trans.Add(1)
+			if after := dump(x) + fmt.Sprintf("|%x|%s", []byte(x.Raw), []byte(x.J)); after != before {
+				c.Failf(fmt.Sprintf("C15:populated-struct-references-input:json=%v", js), "overwriting the input buffer after populating changed the struct\n before %s\n after  %s", before, after)
+			}
+		}, nil
+	}
+	// member names that differ only in case are different members
+	Scenarios["c15.json-names-differing-in-case"] = func() (choice.Scenario, func() any) {
+		type caseNames struct {
+			Kid *string `cbor:"1,keyasint,omitempty" json:"kid,omitempty"`
+			KID *string `cbor:"2,keyasint,omitempty" json:"KID,omitempty"`
+			Seq *int64  `cbor:"3,keyasint" json:"seq"`
+		}
+		return func(c *choice.Ctx) {
+			mask := c.Choose("members-set", 4)
+			a, b, n := "lower", "UPPER", int64(5)
+			x := &caseNames{Seq: &n}
+			if mask&1 != 0 {
+				x.Kid = &a
+			}
+			if mask&2 != 0 {
+				x.KID = &b
+			}
+			out, err := encoding.SerializeStructToJSON(x)
+			if err != nil {
+				c.Failf("C15:json-serialize-error:names-differing-in-case", "%v", err)
+				return
+			}
+			y := &caseNames{}
+			c15stats.StateStr(fmt.Sprint("case-names", mask))
+			c15stats.Trans.Add(3)
+			if err := encoding.PopulateStructFromJSON(out, y); err != nil || !reflect.DeepEqual(x, y) {
+				c.Failf("C15:json-roundtrip:names-differing-in-case", "populate(serialize(x)) != x (%v)\n x %s\n y %s", err, dump(x), dump(y))
+			}
+			// the mandatory member under another capitalisation is another member: it is missing
+			if err := encoding.PopulateStructFromJSON([]byte(`{"SEQ":5}`), &caseNames{}); err == nil {
+				c.Failf("C15:missing-mandatory-accepted:json:names-differing-in-case", `{"SEQ":5} was taken for the mandatory member "seq"`)
+			}
+			z := &caseNames{}
+			if err := encoding.PopulateStructFromJSON([]byte(`{"seq":1,"Kid":"x","kID":"y"}`), z); err == nil && (z.Kid != nil || z.KID != nil) {
+				c.Failf("C15:json-member-matched-case-insensitively", `"Kid"/"kID" populated %s`, dump(z))
+			}
+		}, nil
+	}
 	// returned bytes of exactly a power-of-two size (or one less / more) stay what they were
 	Scenarios["c15.returned-bytes-exact-size"] = func() (choice.Scenario, func() any) {
 		return func(c *choice.Ctx) {
@@ -945,6 +1031,8 @@ func init() {
 		exploreChoiceOpts(r, "c15.after-failed-serialise", -1, dl, 1)
 		exploreChoiceOpts(r, "c15.same-name-types", -1, dl, 1)
 		exploreChoiceOpts(r, "c15.returned-bytes-exact-size", -1, dl, 1)
+		exploreChoice(r, "c15.populate-then-overwrite-input", -1, dl)
+		exploreChoice(r, "c15.json-names-differing-in-case", -1, dl)
 		exploreChoiceOpts(r, "c15.shapes", -1, dl, hookWorkers())
 		if thorough(r) {
 			exploreChoice(r, "c15.synthetic.thorough", -1, dl)
